@@ -231,7 +231,6 @@ class Interp(object):
 
     def fresh_str(self, base='s'):
         z = z3.Const(self.path.fresh_name(base), StrS)
-        self.path.assume(slen(z) >= 0)
         return SStr(z)
 
     def fresh_opaque(self, base='o'):
@@ -846,6 +845,8 @@ class Interp(object):
         if isinstance(v, SList):
             i = self.index_value(k)
             iz = z3.IntVal(i) if isinstance(i, int) else i
+            if self.specmode and not isinstance(i, int):
+                return v.get(iz)      # spec text indexes inside its own guards
             if not self.branch(z3.And(iz >= -v.n, iz < v.n)):
                 raise PyExc('IndexError', 'list index out of range')
             if isinstance(i, int) and i < 0:
@@ -1059,18 +1060,17 @@ class Interp(object):
         modfr = Frame(f.module)
         bound = self.bind_args(f.node.args, args, kwargs, modfr, f.name)
         body = f.body()
-        names = assigned_names(body) | set(bound)
+        cached = getattr(f, '_pyvc_static', None)
+        if cached is None:
+            loops = [n for n in ast.walk(f.node) if isinstance(n, (ast.For, ast.While))]
+            loops.sort(key=lambda n: (n.lineno, n.col_offset))
+            cached = (assigned_names(body), {id(n): i + 1 for i, n in enumerate(loops)})
+            f._pyvc_static = cached
+        names = cached[0] | set(bound)
         fr = Frame(f.module, dict(bound), names, fn=f)
         if extra_locals:
             fr.locals.update(extra_locals)
-        fr.loop_ordinals = {}
-        k = 0
-        for n in ast.walk(f.node):
-            pass
-        loops = [n for n in ast.walk(f.node) if isinstance(n, (ast.For, ast.While))]
-        loops.sort(key=lambda n: (n.lineno, n.col_offset))
-        for i, n in enumerate(loops):
-            fr.loop_ordinals[id(n)] = i + 1
+        fr.loop_ordinals = cached[1]
         self.call_depth += 1
         sm, self.specmode = self.specmode, False
         try:
@@ -1461,7 +1461,11 @@ class Interp(object):
         if isinstance(itv, SObj) and '__iter__' in itv.attrs:
             itv = itv.attrs['__iter__']
             symbolic = isinstance(itv, SList) and not z3.is_int_value(z3.simplify(itv.n))
-        if not symbolic and spec is None:
+        if isinstance(itv, SStr):
+            chars = z3.Function(self.path.fresh_name('chars'), z3.IntSort(), StrS)
+            itv = SList(slen(itv.z), lambda i: SStr(chars(i)), T.str, 'list')
+            symbolic = True
+        if not symbolic:
             items = self.iterate_concrete(itv)
             broke = False
             for x in items:
